@@ -233,6 +233,17 @@ def c04_directed(rng, cfg):
     h = Hist(rng, cfg)
     r = rng
     nodes = seed_network(h)
+    if cfg.get("mqtt") or r.random() < 0.15:
+        # the very same accepted line delivered twice in a row (two nodes without an id asking back to back, a value
+        # reported twice; over MQTT with the ack flag set = QoS 1): each delivery is a message of its own
+        h.ops.append(("recv", "255;255;3;1;3;"))
+        h.ops.append(("recv", "255;255;3;1;3;"))
+        h.drain()
+        n0 = nodes[0]
+        if h.known[n0]:
+            line = f"{n0};{h.known[n0][0]};1;1;{h.free_sub()};same"
+            h.ops += [("recv", line), ("recv", line)]
+            h.drain()
     steps = r.randrange(6, 16)
     for _ in range(steps):
         k = r.random()
